@@ -164,7 +164,7 @@ func checkHasPath(rep *lib.Report, shape string) {
 		case qs := <-doneCh:
 			queries = append(queries, qs...)
 		case <-time.After(90 * time.Second):
-			rep.Fail("haspath-diverges", fmt.Sprintf("lang.HasPathTo did not answer %d queries on a %d-block CFG within 90 s (theorems hasPathCur_terminates / hasPathFix_linear bound the models)", len(pairs), nb), []byte("function "+f.Name()+"\nsuccessors by block:\n"+strings.Join(succsText(f), "\n")+"\n"), false)
+			rep.Fail("haspath-diverges", fmt.Sprintf("lang.HasPathTo did not answer %d queries on a %d-block CFG within 90 s (theorems hasPathOld_terminates / hasPathFix_linear bound the models)", len(pairs), nb), []byte("function "+f.Name()+"\nsuccessors by block:\n"+strings.Join(succsText(f), "\n")+"\n"), false)
 			return
 		}
 		for _, p := range pairs {
@@ -190,14 +190,14 @@ func checkHasPath(rep *lib.Report, shape string) {
 			rep.Fail(fmt.Sprintf("diamonds-cfg-%d", n), fmt.Sprintf("Lean `diamonds %d` is not the SSA CFG of %d sequential if/else: model %q, real %q (the exponential witness family no longer describes real functions)", n, n, out[diaLines[n]], want), []byte(diamondSrc("g", n)), true)
 		}
 	}
-	sel := "cur"
+	sel := "old"
 	if shape == "enqueue" {
 		sel = "fix"
 	}
 	qi := 0
 	mism := 0
 	nWrong := 0
-	lineRe := regexp.MustCompile(`^hp (\S+) (\d+) (\d+) cur=(\d),(\d+),(\d) fix=(\d),(\d+),(\d)$`)
+	lineRe := regexp.MustCompile(`^hp (\S+) (\d+) (\d+) old=(\d),(\d+),(\d) fix=(\d),(\d+),(\d)$`)
 	maxRatio := 0.0
 	li := maxDia + 1
 	for _, f := range fns {
@@ -230,7 +230,7 @@ func checkHasPath(rep *lib.Report, shape string) {
 			}
 			if m[4] != m[7] && m[6] == "1" && m[9] == "1" {
 				mism++
-				rep.Fail("haspath-cur-vs-fix:"+key, fmt.Sprintf("models hasPathCur and hasPathFix answer differently on %s %d->%d (theorem hasPath_repair_same_answer would be false)", f.Name(), q.src, q.tgt), []byte(strings.Join(succsText(f), "\n")), true)
+				rep.Fail("haspath-old-vs-fix:"+key, fmt.Sprintf("models hasPathOld and hasPathFix answer differently on %s %d->%d (theorem hasPath_repair_same_answer would be false)", f.Name(), q.src, q.tgt), []byte(strings.Join(succsText(f), "\n")), true)
 			}
 			want := "0"
 			if q.real {
@@ -261,7 +261,7 @@ func checkHasPath(rep *lib.Report, shape string) {
 		var cs, fs, n, d int
 		var cd, fd, wf int
 		var id string
-		if _, err := fmt.Sscanf(strings.NewReplacer("=", " ", ",", " ").Replace(out[li]), "sweep %s cur %d %d fix %d %d wf %d n %d d %d", &id, &cs, &cd, &fs, &fd, &wf, &n, &d); err == nil && fs > 0 {
+		if _, err := fmt.Sscanf(strings.NewReplacer("=", " ", ",", " ").Replace(out[li]), "sweep %s old %d %d fix %d %d wf %d n %d d %d", &id, &cs, &cd, &fs, &fd, &wf, &n, &d); err == nil && fs > 0 {
 			ratio := float64(cs) / float64(fs)
 			if ratio > maxRatio {
 				maxRatio = ratio
@@ -275,7 +275,7 @@ func checkHasPath(rep *lib.Report, shape string) {
 	rep.Extra["haspath_queries"] = len(queries)
 	rep.Extra["haspath_mismatches"] = mism
 	rep.Extra["haspath_model_selected"] = sel
-	rep.Extra["haspath_max_cur_over_fix_step_ratio_generated"] = maxRatio
+	rep.Extra["haspath_max_old_over_fix_step_ratio_generated"] = maxRatio
 
 	// complexity class of the REAL function on the witness family (the step counter of the real loop is
 	// not observable without editing it; its growth is)
@@ -293,14 +293,14 @@ func checkHasPath(rep *lib.Report, shape string) {
 	ts, tb := measure(byName["tdiaSmall"]), measure(byName["tdiaBig"])
 	ratio := float64(tb) / float64(ts+1)
 	rep.Extra["haspath_real_time_ratio_dia16_over_dia11"] = ratio
-	rep.Extra["haspath_model_step_ratio_cur"] = float64(4*(int64(1)<<tBig)-3) / float64(4*(int64(1)<<tSmall)-3)
+	rep.Extra["haspath_model_step_ratio_old"] = float64(4*(int64(1)<<tBig)-3) / float64(4*(int64(1)<<tSmall)-3)
 	rep.Extra["haspath_model_step_ratio_fix"] = float64(3*tBig+1) / float64(3*tSmall+1)
 	rep.Case("haspath-complexity-class")
 	switch shape {
 	case "dequeue":
-		if ratio < 6 {
-			rep.Fail("haspath-class", fmt.Sprintf("T11 says HasPathTo marks on dequeue (model stepCur, 2^n steps) but the real function scales by %.1f from 11 to 16 diamonds (model: 32)", ratio), nil, true)
-		}
+		// the defect F7 (fixed by commit 2099ce8) is back: table T11 says so (obligation hasPath_marks_on_enqueue is
+		// broken) and the witness family of theorem hasPathOld_diamonds is the concrete input
+		rep.Fail("F7:haspath-exponential", fmt.Sprintf("lang.HasPathTo marks blocks on dequeue again (T11): the search is exponential on sequential if/else — real time grows by %.1f from 11 to 16 diamonds (model hasPathOld: 32, hasPathFix: 1.4); theorem hasPathOld_diamonds: 4*2^n-3 iterations", ratio), []byte(diamondSrc("g", 26)), false)
 	case "enqueue":
 		if ratio > 6 {
 			rep.Fail("F7:haspath-exponential", fmt.Sprintf("T11 says HasPathTo marks on enqueue (linear) but the real function scales by %.1f from 11 to 16 diamonds", ratio), []byte(diamondSrc("g", tBig)), false)
@@ -371,7 +371,7 @@ func f7Shaped(dir string) string {
 	for _, l := range out {
 		var cs, fs, n, d, cd, fd, wf int
 		var id string
-		if _, err := fmt.Sscanf(strings.NewReplacer("=", " ", ",", " ").Replace(l), "sweep %s cur %d %d fix %d %d wf %d n %d d %d", &id, &cs, &cd, &fs, &fd, &wf, &n, &d); err == nil {
+		if _, err := fmt.Sscanf(strings.NewReplacer("=", " ", ",", " ").Replace(l), "sweep %s old %d %d fix %d %d wf %d n %d d %d", &id, &cs, &cd, &fs, &fd, &wf, &n, &d); err == nil {
 			if cd == 0 || cs > 50*(n+1) {
 				return fmt.Sprintf("function %s (%d blocks): the model of lang.HasPathTo (mark on dequeue) needs more than %d loop iterations for one query where the repaired search needs %d — finding F7", id, n, cs, fs)
 			}
